@@ -11,11 +11,19 @@ PID = 'C10'
 
 
 def run_histories(hs, timeout=1500):
+    """One result per history, in order.  A history on which the server process dies (an abort that no catch_unwind sees: a
+    panic while panicking, a worker-thread panic, a stack overflow) gets a synthetic result with a `panic` step, found by
+    re-running the histories after the last answered one on their own."""
     rc, out = vh(['server-run'], input='\n'.join(json.dumps(h) for h in hs) + '\n', timeout=timeout)
     res = [json.loads(l) for l in out.splitlines() if l.startswith('{')]
-    if len(res) != len(hs):
-        raise RuntimeError('server-run: %d results for %d histories\n%s' % (len(res), len(hs), out[-1500:]))
-    return res
+    if len(res) == len(hs):
+        return res
+    if len(hs) == 1:
+        tail = ' | '.join(l for l in out.splitlines() if not l.startswith('{'))[-400:]
+        return [{'steps': [{'panic': 'the server process died (exit %s): %s' % (rc, tail)}]}]
+    # results come in input order: everything up to len(res) was answered; the next history killed the process
+    k = len(res)
+    return res + run_histories([hs[k]], timeout) + (run_histories(hs[k + 1:], timeout) if k + 1 < len(hs) else [])
 
 
 def first_diff(res):
@@ -212,7 +220,7 @@ def run(tier, seed, replay=None):
                 hs.append(json.load(open(os.path.join(cdir, fn)))['history'])
         for i in range(n):
             r = rng.fork()
-            hs.append(H.gen_history(r, nmods=rng.range(2, 6), nsteps=12 if tier == 'quick' else 25))
+            hs.append(H.gen_history(r, nmods=rng.range(2, 6), nsteps=12 if tier == 'quick' else 25, long_ids=(len(hs) % 3 == 1)))
     for i, h in enumerate(hs):
         h['id'] = i
     ck.rule = ('histories of update/create/rename/remove over 2-6 modules whose contents import each other (cyclic, missing, '
